@@ -106,17 +106,23 @@ def main(argv=None):
     ctx = core.Ctx(pid, args.tier, seed, args.workers)
     ctx.only = set(filter(None, args.only.split(',')))
     t0 = time.time()
+    trouble = None
     try:
         mod.run(ctx)
     except core.Inconclusive as e:
-        ctx.close()
-        print(f'INCONCLUSIVE: {e}')
-        return 3
+        trouble = f'INCONCLUSIVE: {e}'
     except Exception:
-        ctx.close()
-        print('INCONCLUSIVE: harness error\n' + traceback.format_exc())
-        return 3
+        trouble = 'INCONCLUSIVE: harness error\n' + traceback.format_exc()
     ctx.close()
+    if trouble:
+        print(trouble)
+        known, _fixed = core.load_findings()
+        if any((pid, sig) not in known for sig in ctx.total.violations):
+            # a sub-check lost control, but violations were already established by others: they stand
+            ctx.total.caps.append('a sub-check ended INCONCLUSIVE: coverage is partial')
+            report(ctx, t0)
+            return 1
+        return 3
     return report(ctx, t0)
 
 
